@@ -186,6 +186,14 @@ def build_driver(name, tags=("verif",), overlay=None, race=False, suffix=""):
     shutil.copyfile(os.path.join(REPO, "go.sum"), os.path.join(h, "go.sum"))
     out = os.path.join(BIN, "drv-" + name + ("-" + "-".join(t for t in tags if t != "verif") if len(tags) > 1 else "") + suffix)
     cmd = ["go", "build", "-tags", ",".join(tags), "-o", out]
+    if REPO != "/repo":
+        # a scratch copy of the repository (VERIF_REPO; used for runs against seeded changes while /repo is busy):
+        # the same module file with the replace directive pointing there
+        mod = open(os.path.join(h, "go.mod")).read().replace("=> /repo", "=> " + REPO)
+        with open(os.path.join(h, "go.scratch.mod"), "w") as f:
+            f.write(mod)
+        shutil.copyfile(os.path.join(REPO, "go.sum"), os.path.join(h, "go.scratch.sum"))
+        cmd.append("-modfile=go.scratch.mod")
     if race:
         cmd.append("-race")
     if overlay:
